@@ -582,14 +582,10 @@ def run(index: RepoIndex, rep) -> None:
               'grid[pos] = factory()' in txt, 'C13.R5', d.relpath, 'draw_area',
               f.node.lineno if f else 1, 'draw_area', 'draw_area does not write every border '
               '(or every) position of the area', 'draw_area')
-    ap = index.func('gym_gridverse/geometry.py', 'Area.positions')
-    txt = src(ap.node)
-    ok = 'for y in [self.ymin, self.ymax] for x in range(self.xmin, self.xmax + 1)' in txt and \
-        'for y in range(self.ymin + 1, self.ymax) for x in [self.xmin, self.xmax]' in txt and \
-        'for y in range(self.ymin + 1, self.ymax) for x in range(self.xmin + 1, self.xmax)' in txt
-    rep.check(ok, 'C13.R5', 'gym_gridverse/geometry.py', 'Area.positions', ap.node.lineno,
-              'Area.positions', 'the border / inside selections of Area.positions are not the '
-              'full border / strict interior', 'Area.positions border and inside')
+    # Area.positions: the border selection is exactly the border, the inside selection exactly
+    # the strict interior (denotation of the method at eight small areas, see c11.scan_once)
+    from .c11 import scan_once
+    scan_once(index, rep, 'C13.R5', declare=False)
 
 
 def overwritten(cx: Ctx, e: Write):
